@@ -2,7 +2,8 @@
    Only statements here; proofs live in Proofs/C15*.v.
    G = Model/RefStore (dotgit SetRef / CheckAndSet, Ref, Refs, RemoveRef, PackRefs over
        loose files + packed-refs, after the repairs "fix: PackRefs leaves symbolic
-       references loose …" and "fix: RemoveRef drops the peeled line …"),
+       references loose …", "fix: RemoveRef drops the peeled line …" and "fix: rewrite
+       packed-refs before deleting the loose file in RemoveRef"),
    S = Spec/RefMap (a name -> value map, compare-and-swap on object ids),
    abs s = the loose value of a name, else its first occurrence in packed-refs.
 
@@ -10,7 +11,9 @@
    go-git-written loose files and packed-refs, header / comments / peeled lines
    allowed) and for every history of operations on listed, clean names
    (op_okb), every answer is the map's answer and abs commutes with every step
-   (refines_step), a refusal by the filesystem leaving the map unchanged.
+   (refines_step); a SetRef refused by the filesystem leaves the state unchanged,
+   a RemoveRef removes the name from the map whether or not the filesystem
+   refuses the loose path afterwards (packed-refs is rewritten first).
    The faithful model refutes it at one point (C15_failed_cas_refuted): a
    failed compare-and-swap on a name without a loose file leaves an empty file,
    after which the listing fails.  Everything else is proved in full:
